@@ -14,7 +14,8 @@
 // helper to return right after the action that wakes it), and next_ready() ("poll").
 //
 // header: {"min":n,"max":n (99 = unlimited),"wake":"fn"|"handle","single":"rvalue"|"lvalue"|"range",
-//          "block":"bool"|"iter" (blocking next() as `bool(sub.next())` or through begin()/++ of the iterator)}
+//          "block":"bool"|"iter" (blocking next() as `bool(sub.next())` or through begin()/++ of the iterator),
+//          "batch":"vector"|"list"|"array" (optional; what publish(begin,end) is called with; PushCS(0) = an empty range)}
 // actions: SubscribeRecent(s,mode) SubscribeAt(s,pos,mode) SubscribeCopy(c,o) Leave(s) Ready(s)
 //          Subscribe(s) Fetch(s) Poll(s) NextWhole(s,style) PushCS(n) Close(how) KickCS(s,via) KickGone
 //          PlanCopy(a,c,o): the resumption handler of the parked waiter a (callback / resumed coroutine) will copy
@@ -32,6 +33,7 @@
 #include <deque>
 #include <functional>
 #include <limits>
+#include <list>
 #include <optional>
 #include <thread>
 #include <unistd.h>
@@ -190,7 +192,7 @@ struct World {
     std::vector<std::unique_ptr<Sub>> graveyard;     // records of destroyed subscribers (storage stays reserved)
     std::map<std::size_t, int> slot_last_left;       // slot -> identity of the subscriber that left it last
     const SubT *stale = nullptr;                     // pointer of the subscriber destroyed last
-    std::string wake_style = "fn", single = "rvalue", block_form = "bool";
+    std::string wake_style = "fn", single = "rvalue", block_form = "bool", batch = "vector";
     int npub = 0;
     bool hung = false;
 
@@ -345,7 +347,19 @@ struct World {
             int n = st.iarg(0);
             if (n == 1 && single == "rvalue") { Item v(++npub); pub->publish(std::move(v)); }
             else if (n == 1 && single == "lvalue") { const Item v(++npub); pub->publish(v); }
-            else {
+            else if (batch == "list") {
+                // bidirectional iterators, passed as rvalues (n = 0: an empty container)
+                std::list<Item> vals;
+                for (int i = 0; i < n; i++) vals.emplace_back(++npub);
+                pub->publish(vals.cbegin(), vals.cend());
+            } else if (batch == "array") {
+                // plain pointers (n = 0: begin == end somewhere inside an array)
+                Item vals[8];
+                if (n > 7) { rep.error(k, "batch too long"); return false; }
+                for (int i = 0; i < n; i++) vals[i] = Item(++npub);
+                const Item *b = vals + 1 - (n > 0), *e = b + n;
+                pub->publish(b, e);
+            } else {
                 std::vector<Item> vals;
                 for (int i = 0; i < n; i++) vals.emplace_back(++npub);
                 pub->publish(vals.begin(), vals.end());
@@ -425,6 +439,7 @@ struct World {
         wake_style = sc.hdr.at("wake").as_str("fn");
         single = sc.hdr.at("single").as_str("rvalue");
         block_form = sc.hdr.at("block").as_str("bool");
+        batch = sc.hdr.has("batch") ? sc.hdr.at("batch").as_str("vector") : "vector";
         if (mx >= 99 && mn == 1) pub.reset(new Pub());
         else pub.reset(new Pub(mx >= 99 ? std::numeric_limits<std::size_t>::max() : (std::size_t) mx, mn));
         qp = pub->get_queue();
